@@ -42,7 +42,17 @@ constexpr auto operator_arrow_produces_pointer_to_iterator_reference_type() noex
 }
 
 template <class I>
+inline constexpr bool IS_REVERSE_ITERATOR = false;
+
+template <class I>
+inline constexpr bool IS_REVERSE_ITERATOR<std::reverse_iterator<I>> = true;
+
+template <class I>
 inline constexpr bool CONTIGUOUS_ITERATOR_V =
+#ifdef __cpp_lib_concepts
+    std::contiguous_iterator<I> &&
+#endif
+    !detail::IS_REVERSE_ITERATOR<I> &&
     detail::IS_DERIVED_FROM<typename std::iterator_traits<I>::iterator_category, std::random_access_iterator_tag> &&
     std::is_lvalue_reference_v<typename std::iterator_traits<I>::reference> &&
     std::is_same_v<typename std::iterator_traits<I>::value_type,
